@@ -155,6 +155,8 @@ def judge(run, c, x, xste, y, sc, eps32, model, mirrored):
     key0["cls"] = c["cls"]      # stochastic_binary / stochastic_ternary in the inference phase
   det0 = {"case": label(c)}
   n = len(x)
+  if n <= 64:
+    det0["x"] = [float(v) for v in x]      # the concrete input (row-major), small tensors only
   # ---- constant alpha (any numeric form, scalar or ndarray) / None: `q.scale` IS alpha (1 for None),
   # broadcast to the input; the output is then judged as scale x code below
   if not auto:
